@@ -4,7 +4,8 @@ import EdpVerif.Impl.Handshake
 import EdpVerif.Generated.Control
 import EdpVerif.Impl.Den
 import EdpVerif.Spec.Wire
-import EdpVerif.Generated.Misc
+import EdpVerif.Generated.MiscC04
+import EdpVerif.Generated.MiscC07
 /-!
 Model of the send side of crates/edp_client/src/connection.rs
 (`send_message`, `send_to_name`, `link`, `unlink`, `monitor`, `demonitor`, `send_control_message`), of
